@@ -260,7 +260,16 @@ def run_case(case, ctx):
             ud["X"] = gen.structured_2x2(rng)[0] if case["rep"] % 2 == 0 else gen.haar_2x2(rng)
         from qucumber.utils import unitaries
 
-        udict_t = unitaries.create_dict(**{k: gen.enc(v) for k, v in ud.items()})
+        # given as double tensors / float64 arrays / nested lists; afterwards the caller re-uses its own objects as scratch
+        # memory: the dictionary must hold what was handed over at the time
+        given = {k: [gen.enc(v), gen.enc(v).numpy().copy(), gen.enc(v).tolist()][(case["rep"] + j_) % 3] for j_, (k, v) in enumerate(ud.items())}
+        udict_t = unitaries.create_dict(**given)
+        for g_ in given.values():
+            if isinstance(g_, torch.Tensor):
+                g_.fill_(9.0)
+            elif isinstance(g_, np.ndarray):
+                g_[...] = 9.0
+        ctx.count("user_unitaries_scribbled_after_handing_over")
         alphabet = sorted(udict_t)
         basis = "".join(rng.choice(alphabet, size=n))
         if not any(c in ud for c in basis):
